@@ -55,6 +55,25 @@ class CompileMapper(StringifyMapper):
         else:
             return result
 
+    def map_comparison(self, expr, enclosing_prec):
+        # Python chains comparisons (a < b < c): an operand that is a
+        # comparison itself needs parentheses
+        from pymbolic.mapper.stringifier import (
+            PREC_BITWISE_OR, PREC_COMPARISON)
+        return self.parenthesize_if_needed(
+                self.format("%s %s %s",
+                    self.rec(expr.left, PREC_BITWISE_OR),
+                    expr.operator,
+                    self.rec(expr.right, PREC_BITWISE_OR)),
+                enclosing_prec, PREC_COMPARISON)
+
+    def map_logical_not(self, expr, enclosing_prec):
+        # Python's 'not' binds more loosely than comparisons and arithmetic
+        from pymbolic.mapper.stringifier import PREC_LOGICAL_AND, PREC_UNARY
+        return self.parenthesize_if_needed(
+                "not " + self.rec(expr.child, PREC_UNARY),
+                enclosing_prec, PREC_LOGICAL_AND)
+
     def map_polynomial(self, expr, enclosing_prec):
         # Use Horner's scheme to evaluate the polynomial
 
